@@ -41,8 +41,8 @@ var guardedBy = []guardSpec{
 }
 
 func runC15(c *core.Ctx) {
-	runFixtures(c, "locks")
-	c.Explain("Linearizability, race freedom in general and deadlock freedom over interleavings are NOT decidable by a sound static argument available here (no pointer analysis, no scheduler model); the race detector and systematic schedule enumeration are other technique families. Two necessary conditions are decided: (R15.1) a guarded-by table (14 lines, each confirmed by reading): the blob's byte slice is touched through a receiver only with the blob mutex held; mirrored/handed-out counters and published flags only through sync/atomic; the serial transaction's result map only under its mutex; the lazily loaded record fields are written only inside the matching sync.Once.Do closure and read only after that Do has returned in the same function (or after the atomic published flag was seen). A shared blob touched without its guard IS a data race. (R15.2) check-then-act in one transaction: each mutating operation of the key-value FS issues the look-ups its decision depends on and the resulting Set on the same Transaction value — otherwise two goroutines can both pass the check (two Mkdir of one name both return nil, which no sequential order produces); (R15.3) in every method of the slice-backed blob the comparisons that justify a slice of the mutex-guarded buffer read its length while the mutex is held, in the critical section that slices — a bounds check made before locking lets a concurrent Truncate through another handle turn the guarded index into a panic; an unlocked pre-check that is repeated under the lock is accepted (no dispatch under the blob lock is R19.4, checked under C19); (R15.4) the in-memory store's transaction constructor holds the store mutex at every successful return — a read-only transaction that skips it sees a rename half done; (R15.5) an operation of the key-value FS that writes more than one record (Rename of a file: new name and old name) issues all its writes on one Transaction value, so no other goroutine's transaction can run between them; (R15.6) every plain map field of a struct that owns a mutex (mem, keyvalue, tar, mount, cache, pathlock) is accessed only with that mutex held, constructors excepted; (R15.7) no method of keyvalue.FS stores into a field of the FS value (no lock protects it and all goroutines share it). The property itself is not claimed. (R15.8/R15.9/R15.10) the analyses of R19.4 (no lock-taking call under a blob mutex), R19.3 (views share the mutex) and R14.3 (a value that came with an error is neither used nor kept) under this property. (R15.11) a handle grows its content by an amount read in another critical section (known finding); (R15.12 = R19.13) no blob method returns with its mutex held; (R15.13) in-memory records are immutable once stored.")
+	runFixtures(c, "locks", "rangecb")
+	c.Explain("Linearizability, race freedom in general and deadlock freedom over interleavings are NOT decidable by a sound static argument available here (no pointer analysis, no scheduler model); the race detector and systematic schedule enumeration are other technique families. Two necessary conditions are decided: (R15.1) a guarded-by table (14 lines, each confirmed by reading): the blob's byte slice is touched through a receiver only with the blob mutex held; mirrored/handed-out counters and published flags only through sync/atomic; the serial transaction's result map only under its mutex; the lazily loaded record fields are written only inside the matching sync.Once.Do closure and read only after that Do has returned in the same function (or after the atomic published flag was seen). A shared blob touched without its guard IS a data race. (R15.2) check-then-act in one transaction: each mutating operation of the key-value FS issues the look-ups its decision depends on and the resulting Set on the same Transaction value — otherwise two goroutines can both pass the check (two Mkdir of one name both return nil, which no sequential order produces); (R15.3) in every method of the slice-backed blob the comparisons that justify a slice of the mutex-guarded buffer read its length while the mutex is held, in the critical section that slices — a bounds check made before locking lets a concurrent Truncate through another handle turn the guarded index into a panic; an unlocked pre-check that is repeated under the lock is accepted (no dispatch under the blob lock is R19.4, checked under C19); (R15.4) the in-memory store's transaction constructor holds the store mutex at every successful return — a read-only transaction that skips it sees a rename half done; (R15.5) an operation of the key-value FS that writes more than one record (Rename of a file: new name and old name) issues all its writes on one Transaction value, so no other goroutine's transaction can run between them; (R15.6) every plain map field of a struct that owns a mutex (mem, keyvalue, tar, mount, cache, pathlock) is accessed only with that mutex held, constructors excepted; (R15.7) no method of keyvalue.FS stores into a field of the FS value (no lock protects it and all goroutines share it). The property itself is not claimed. (R15.8/R15.9/R15.10) the analyses of R19.4 (no lock-taking call under a blob mutex), R19.3 (views share the mutex) and R14.3 (a value that came with an error is neither used nor kept) under this property. (R15.11) a handle grows its content by an amount read in another critical section (known finding); (R15.12 = R19.13) no blob method returns with its mutex held; (R15.13) in-memory records are immutable once stored. (R15.14) handles mutate the loaded content blob, never a View/Slice of it; (R15.15) sync.Map Range callbacks store no slice element at an index unbounded by len.")
 	c.Assume("lock identity by access path; single receiver per method (no aliasing of two blobs in one method other than fresh results)")
 	c.RuleDoc("R15.1", "guarded-by table")
 	c.RuleDoc("R15.2", "check-then-act within one transaction")
@@ -873,66 +873,70 @@ func r15MutateTheSharedBlob(c *core.Ctx, p *load.Program) {
 func r15RangeCallbacksAppend(c *core.Ctx, p *load.Program, rels ...string) {
 	for _, rel := range rels {
 		for _, fn := range pkgFuncs(p, rel) {
-			ord := ordinals{}
-			ssax.Instrs(fn, func(ins ssa.Instruction) {
-				cl, ok := ins.(*ssa.Call)
-				if !ok || !ssax.CalleeIs(cl, "sync", "(*Map).Range") || len(cl.Call.Args) < 2 {
-					return
-				}
-				key := fname(fn) + "|" + ord.next("range-callback")
-				var cb *ssa.Function
-				originIs(cl.Call.Args[1], func(v ssa.Value) bool {
-					switch x := v.(type) {
-					case *ssa.MakeClosure:
-						cb, _ = x.Fn.(*ssa.Function)
-					case *ssa.Function:
-						cb = x
-					}
-					return cb != nil
-				})
-				if cb == nil || cb.Blocks == nil {
-					c.Unknown("R15.15", key, p.Pos(cl.Pos()), fmt.Sprintf("%s: the callback handed to Range could not be resolved", fname(fn)))
-					return
-				}
-				bad := ""
-				ssax.Instrs(cb, func(ci ssa.Instruction) {
-					st, ok := ci.(*ssa.Store)
-					if !ok {
-						return
-					}
-					ia, ok := st.Addr.(*ssa.IndexAddr)
-					if !ok {
-						return
-					}
-					if _, isSlice := ia.X.Type().Underlying().(*types.Slice); !isSlice {
-						return
-					}
-					canon := func(v ssa.Value) (ssax.Term, bool) {
-						v = ssax.StripIntConv(v)
-						if k, ok := ssax.ConstInt(v); ok {
-							return ssax.Term{IsConst: true, Const: k}, true
-						}
-						if lc, ok := v.(*ssa.Call); ok {
-							if b, ok := lc.Call.Value.(*ssa.Builtin); ok && b.Name() == "len" && sameCellLoad(lc.Call.Args[0], ia.X) {
-								return ssax.Term{Sym: "LEN"}, true
-							}
-						}
-						if u, ok := v.(*ssa.UnOp); ok && u.Op == token.MUL {
-							return ssax.Term{Sym: "cell:" + u.X.Name()}, true
-						}
-						return ssax.Term{Sym: "v:" + v.Name()}, true
-					}
-					b := ssax.NewBounds(ssax.FactsAtInstr(st), canon)
-					t, _ := canon(ia.Index)
-					if !b.LE(t, ssax.Term{Sym: "LEN"}, -1) {
-						bad = p.Pos(st.Pos())
-					}
-				})
-				c.Check(bad == "", "R15.15", key, p.Pos(cl.Pos()), "the callback stores no slice element at an unguarded index",
-					fmt.Sprintf("%s: the Range callback writes a slice element at %s at an index no dominating comparison bounds by the slice's length: the map is read without the store mutex, so a slice sized by an earlier pass is too short when another goroutine added an entry in between (index out of range panic) and keeps empty names when one was removed", fname(fn), bad))
-			})
+			r15RangeCallbacksIn(c, p, fn, "R15.15")
 		}
 	}
+}
+
+func r15RangeCallbacksIn(c *core.Ctx, p *load.Program, fn *ssa.Function, rule string) {
+	ord := ordinals{}
+	ssax.Instrs(fn, func(ins ssa.Instruction) {
+		cl, ok := ins.(*ssa.Call)
+		if !ok || !ssax.CalleeIs(cl, "sync", "(*Map).Range") || len(cl.Call.Args) < 2 {
+			return
+		}
+		key := fname(fn) + "|" + ord.next("range-callback")
+		var cb *ssa.Function
+		originIs(cl.Call.Args[1], func(v ssa.Value) bool {
+			switch x := v.(type) {
+			case *ssa.MakeClosure:
+				cb, _ = x.Fn.(*ssa.Function)
+			case *ssa.Function:
+				cb = x
+			}
+			return cb != nil
+		})
+		if cb == nil || cb.Blocks == nil {
+			c.Unknown(rule, key, p.Pos(cl.Pos()), fmt.Sprintf("%s: the callback handed to Range could not be resolved", fname(fn)))
+			return
+		}
+		bad := ""
+		ssax.Instrs(cb, func(ci ssa.Instruction) {
+			st, ok := ci.(*ssa.Store)
+			if !ok {
+				return
+			}
+			ia, ok := st.Addr.(*ssa.IndexAddr)
+			if !ok {
+				return
+			}
+			if _, isSlice := ia.X.Type().Underlying().(*types.Slice); !isSlice {
+				return
+			}
+			canon := func(v ssa.Value) (ssax.Term, bool) {
+				v = ssax.StripIntConv(v)
+				if k, ok := ssax.ConstInt(v); ok {
+					return ssax.Term{IsConst: true, Const: k}, true
+				}
+				if lc, ok := v.(*ssa.Call); ok {
+					if b, ok := lc.Call.Value.(*ssa.Builtin); ok && b.Name() == "len" && sameCellLoad(lc.Call.Args[0], ia.X) {
+						return ssax.Term{Sym: "LEN"}, true
+					}
+				}
+				if u, ok := v.(*ssa.UnOp); ok && u.Op == token.MUL {
+					return ssax.Term{Sym: "cell:" + u.X.Name()}, true
+				}
+				return ssax.Term{Sym: "v:" + v.Name()}, true
+			}
+			b := ssax.NewBounds(ssax.FactsAtInstr(st), canon)
+			t, _ := canon(ia.Index)
+			if !b.LE(t, ssax.Term{Sym: "LEN"}, -1) {
+				bad = p.Pos(st.Pos())
+			}
+		})
+		c.Check(bad == "", rule, key, p.Pos(cl.Pos()), "the callback stores no slice element at an unguarded index",
+			fmt.Sprintf("%s: the Range callback writes a slice element at %s at an index no dominating comparison bounds by the slice's length: the map is read without the store mutex, so a slice sized by an earlier pass is too short when another goroutine added an entry in between (index out of range panic) and keeps empty names when one was removed", fname(fn), bad))
+	})
 }
 
 // sameCellLoad: a and b are loads of the same cell (or the same value).
